@@ -23,8 +23,7 @@ TRUSTED = ["Coq 8.16.1 kernel + vm_compute (primitive floats)", "Rust executor /
            "python driver: generators, numpy.linalg.solve / cond reference, stream comparators",
            "hand-written Gallina model coq/Model/Iter.v (on top of coq/Model/Sparse.v) tied to src/sparse.rs:303-616 by differential execution"]
 ASSUMPTIONS = ["Rust semantics of Vec/usize/f64 as modelled", "the iteration bound 3n+10 and the attainability rule are calibrated constants of the search, not theorems"]
-UNPROVED = ["CONVERGENCE IS NOT PROVED: success within O(n) iterations on SPD / strictly diagonally dominant systems and agreement with the direct "
-            "solution to tol*cond are statements about floating-point Krylov iterations; they are covered by the failing-input search only",
+UNPROVED = ["convergence is proved in EXACT arithmetic only: cg_terminates_spd_R (SPD, every b, x0, tol >= 0, budget >= n: Ok k with k <= n, solved), cg_direct_solver_R, the same for symmetric strictly diagonally dominant matrices with positive diagonal (sdd_symmetric_is_posdef) and for BiCG on symmetric matrices (bicg_is_cg_on_symmetric); for arbitrary matrices bicg_breakdown_or_terminates (BiCG divides by zero or returns Ok within n+1 iterations); the exits of BiCGSTAB / QMR are characterised and the left-eigenvector class of the recorded breakdowns is a theorem. NOT proved: anything positive about BiCGSTAB / QMR beyond eigenvector and 1x1 starts, and every statement about the floating-point iteration (success within 3n+10, agreement with the direct solution to tol*cond): failing-input search only",
             "the degenerate-start theorems are over exact fields (any square-root function with sqrt 0 = 0); their f64 instances are covered by the tie and the search"]
 
 MANIFEST = dict(
@@ -36,7 +35,7 @@ MANIFEST = dict(
           "strictly diagonally dominant systems of condition <= 1e4, agreement with the direct solution) is NOT proved: it is a failing-input search against "
           "numpy on order <= 60, with the float model tied to the implementation on order <= 12. The search found a new failure class (exact Krylov "
           "breakdowns of BiCG / BiCGSTAB / QMR on small-integer systems), recorded as three open findings keyed by the model's exit code."),
-    note=("PARTIAL: only the degenerate-start half is a theorem. Convergence of floating-point Krylov iterations is searched, never proved; the iteration "
+    note=("PARTIAL: the degenerate-start half and exact-arithmetic finite termination of CG / symmetric BiCG on SPD and symmetric diagonally dominant systems are theorems. Convergence of the floating-point Krylov iterations is searched, never proved; the iteration "
           "constant 3n+10 (positive-diagonal SDD and SPD; 20n+100 for mixed-sign diagonals) and the attainability rule tol >= 10 n eps kappa are calibrated."),
     technique="Coq proof over an abstract field (degenerate starts) + float-model/implementation differential execution + numpy reference search (convergence)",
     design="7 (C09)")
